@@ -15,6 +15,21 @@ type Edge struct{ From, To *ssa.BasicBlock }
 // reachFrom computes the set of blocks reachable from `from` (inclusive)
 // without traversing removed edges or entering blocked blocks.
 func reachFrom(from *ssa.BasicBlock, removed map[Edge]bool, blocked map[*ssa.BasicBlock]bool) map[*ssa.BasicBlock]bool {
+	return reachFromPlain(from, removed, blocked)
+}
+
+// reachFeasible / reachFeasibleSuccs: the same questions over feasible paths only (cfgpath.go); used by the must-pass
+// queries, not by the structural ones (cycles, loops)
+func reachFeasible(from *ssa.BasicBlock, removed map[Edge]bool, blocked map[*ssa.BasicBlock]bool) map[*ssa.BasicBlock]bool {
+	return reachPath(from, removed, blocked, false)
+}
+
+func reachFeasibleSuccs(from *ssa.BasicBlock, removed map[Edge]bool, blocked map[*ssa.BasicBlock]bool) map[*ssa.BasicBlock]bool {
+	return reachPath(from, removed, blocked, true)
+}
+
+// reachFromPlain: reachFrom over every CFG edge (no feasibility pruning; cfgpath.go)
+func reachFromPlain(from *ssa.BasicBlock, removed map[Edge]bool, blocked map[*ssa.BasicBlock]bool) map[*ssa.BasicBlock]bool {
 	seen := map[*ssa.BasicBlock]bool{}
 	if blocked[from] {
 		return seen
@@ -38,6 +53,10 @@ func reachFrom(from *ssa.BasicBlock, removed map[Edge]bool, blocked map[*ssa.Bas
 // reachFromSuccs: blocks reachable by at least one edge from b (b itself is
 // included only if it lies on a cycle).
 func reachFromSuccs(b *ssa.BasicBlock, removed map[Edge]bool, blocked map[*ssa.BasicBlock]bool) map[*ssa.BasicBlock]bool {
+	return reachFromSuccsPlain(b, removed, blocked)
+}
+
+func reachFromSuccsPlain(b *ssa.BasicBlock, removed map[Edge]bool, blocked map[*ssa.BasicBlock]bool) map[*ssa.BasicBlock]bool {
 	seen := map[*ssa.BasicBlock]bool{}
 	var stack []*ssa.BasicBlock
 	for _, s := range b.Succs {
@@ -77,7 +96,7 @@ func mustPassEdges(fn *ssa.Function, target *ssa.BasicBlock, edges ...Edge) bool
 	for _, e := range edges {
 		rm[e] = true
 	}
-	return !reachFrom(fn.Blocks[0], rm, nil)[target]
+	return !reachFeasible(fn.Blocks[0], rm, nil)[target]
 }
 
 // mustPassBlocks: every path from→target passes through one of the blocks
@@ -90,7 +109,7 @@ func mustPassBlocks(from, target *ssa.BasicBlock, via ...*ssa.BasicBlock) bool {
 	if bl[from] || bl[target] {
 		return true
 	}
-	return !reachFrom(from, nil, bl)[target]
+	return !reachFeasible(from, nil, bl)[target]
 }
 
 // condEdge returns the If terminating block b and its true/false edges.
@@ -280,17 +299,97 @@ func retResult(ret *ssa.Return, i int) ssa.Value {
 	if !ok {
 		return v
 	}
-	var last ssa.Value
-	for _, in := range ret.Block().Instrs {
-		if in == ssa.Instruction(ld) {
-			break
+	// the last value stored into the cell before the load; a value that is itself a load of the cell (`err = err`
+	// through a temporary, as go/ssa writes `x, err = a, b` for a named result) is chased to the store before it
+	cur := ld
+	for hop := 0; hop < 4; hop++ {
+		var last ssa.Value
+		for _, in := range ret.Block().Instrs {
+			if in == ssa.Instruction(cur) {
+				break
+			}
+			if st, ok := in.(*ssa.Store); ok && st.Addr == ssa.Value(al) {
+				last = st.Val
+			}
 		}
-		if st, ok := in.(*ssa.Store); ok && st.Addr == ssa.Value(al) {
-			last = st.Val
+		if last == nil {
+			if hop == 0 {
+				return v
+			}
+			return cur
 		}
-	}
-	if last != nil {
+		l2, isLoad := last.(*ssa.UnOp)
+		if isLoad && l2.Op == token.MUL && l2.X == ssa.Value(al) && l2.Block() == ret.Block() {
+			cur = l2
+			continue
+		}
 		return last
 	}
 	return v
+}
+
+
+// resultVia: control leaves block b and follows unconditional jumps to a return; the idx-th result of that return
+// (idx < 0: the last), with the φs met on the way resolved by the edge taken. nil when the way forks before a return.
+func resultVia(b *ssa.BasicBlock, idx int) (ssa.Value, *ssa.Return) {
+	env := map[*ssa.Phi]ssa.Value{}
+	resolve := func(v ssa.Value) ssa.Value {
+		for i := 0; i < 8; i++ {
+			ph, ok := v.(*ssa.Phi)
+			if !ok {
+				return v
+			}
+			nv, ok := env[ph]
+			if !ok {
+				return v
+			}
+			v = nv
+		}
+		return v
+	}
+	cur := b
+	for step := 0; step < 10 && cur != nil && len(cur.Instrs) > 0; step++ {
+		switch last := cur.Instrs[len(cur.Instrs)-1].(type) {
+		case *ssa.Return:
+			if len(last.Results) == 0 {
+				return nil, last
+			}
+			k := idx
+			if k < 0 {
+				k = len(last.Results) - 1
+			}
+			if k >= len(last.Results) {
+				return nil, last
+			}
+			v := last.Results[k]
+			if rr := retResult(last, k); rr != nil {
+				v = rr
+			}
+			return resolve(v), last
+		case *ssa.Jump:
+			next := cur.Succs[0]
+			pi := -1
+			for i, p := range next.Preds {
+				if p == cur {
+					pi = i
+				}
+			}
+			if pi < 0 {
+				return nil, nil
+			}
+			for _, in := range next.Instrs {
+				ph, ok := in.(*ssa.Phi)
+				if !ok {
+					break
+				}
+				if pi < len(ph.Edges) {
+					env[ph] = resolve(ph.Edges[pi])
+				}
+			}
+			cur = next
+		default:
+			return nil, nil
+		}
+	}
+	return nil, nil
 }
